@@ -89,8 +89,7 @@ def counts(repo: Repo, chk: Check) -> None:
     for n in inner:
         if norm.match(T("range($i + 1)"), n.iter, {"i": iv}) is not None and isinstance(n.target, ast.Name):
             j = n.target.id
-            src = ast.unparse(n)
-            okp = f"{p}.stages[{j}].clone()" in src and f"index_ops[{iv} - {j}]" in src
+            okp = norm.contains(n, T(f"{p}.stages[{j}].clone()")) and norm.contains(n, T(f"$tbl[{iv} - {j}]"))
     chk.result(okp, "C15.counts", f"{f.key}:prologue-stages", pro.where(), "prologue step i runs stage j (j <= i) on the index clone of iteration i - j",
                "prologue step i does not run stages [j] for j in range(i + 1) with the index clone i - j")
     okc = any(norm.match(T("arith.ConstantOp.from_int_and_width($i, $_)"), x, {"i": iv}) is not None for x in ast.walk(pro.node) if isinstance(x, ast.Call))
@@ -101,8 +100,7 @@ def counts(repo: Repo, chk: Check) -> None:
     for n in inner:
         if norm.match(T("reversed(range($i + 1))"), n.iter, {"i": ie}) is not None and isinstance(n.target, ast.Name):
             j = n.target.id
-            src = ast.unparse(n)
-            oke = f"{p}.stages[-{j} - 1].clone()" in src and f"index_ops[{ie} - {j}]" in src
+            oke = norm.contains(n, T(f"{p}.stages[-{j} - 1].clone()")) and norm.contains(n, T(f"$tbl[{ie} - {j}]"))
     chk.result(oke, "C15.counts", f"{f.key}:epilogue-stages", epi.where(), "epilogue step i runs the last i+1 stages, earliest remaining stage first",
                "epilogue step i does not run stages [-j-1] for j in reversed(range(i + 1)) with the index clone i - j")
     okes = False
@@ -163,7 +161,9 @@ def parity(repo: Repo, chk: Check) -> None:
     if set(defs) != {"ins", "outs"}:
         raise AnalysisError(f"{f.where}: reader/writer use lists not found")
     for side, (name, conds, s) in defs.items():
-        ok = any("isinstance(use.operation, StageOp)" in c for c in conds) and any("parent_op() is" in c for c in conds) and len(conds) == 3
+        gen = s.node.value.generators[0]
+        uv = gen.target.id if isinstance(gen.target, ast.Name) else "?"
+        ok = any(f"isinstance({uv}.operation, StageOp)" in c or f"isinstance({uv}.operation, pipeline.StageOp)" in c for c in conds) and any("parent_op() is" in c for c in conds) and len(conds) == 3
         chk.result(ok, "C15.parity", f"{f.key}:{side}-uses", s.where(), f"{'readers' if side == 'ins' else 'writers'} = stages of this pipeline with the buffer in {side}",
                    f"the {'reader' if side == 'ins' else 'writer'} list is filtered by {conds}")
     rd, wr = defs["ins"][0], defs["outs"][0]
@@ -265,9 +265,21 @@ def stage_shape(repo: Repo, chk: Check) -> None:
     chk.result("CopyOp" in src and "GenericOp" in src and "StreamingRegionOpBase" in src and "isinstance" in src, "C15.stage-shape", f"{is_stage.key}:kinds", is_stage.where,
                "stage ops are copies / generics / streaming regions")
     # stages are closed by syncs: appending a stage happens under isinstance(next_op, ClusterSyncOp)
-    apps = [s for s in fl.calls("append") if s.reachable and ast.unparse(s.node.func.value) == "stages"]  # type: ignore[attr-defined]
+    # the stage list is the list whose length is tested against 2 in the guards above (not a name)
+    stage_lists = set()
+    for f_ in first.facts:
+        if f_.kind == "atom":
+            m_ = norm.any_match(["len($s) >= 2", "len($s) > 1", "not len($s) < 2"], f_.expr)
+            if m_ is not None and isinstance(norm.primary(m_["s"]), ast.Name):
+                stage_lists.add(norm.primary(m_["s"]).id)
+    apps = [s for s in fl.calls("append") if s.reachable and ast.unparse(s.node.func.value) in stage_lists]  # type: ignore[attr-defined]
     chk.result(bool(apps) and all(has_fact(s, ["isinstance($n, ClusterSyncOp)", "isinstance($n, snax.ClusterSyncOp)"]) for s in apps), "C15.stage-shape", f"{f.key}:sync-closed",
                apps[0].where() if apps else f.where, "a stage is only completed by a ClusterSyncOp", "a stage can be completed without a closing ClusterSyncOp")
+    # the input / output buffer lists are whatever StageOp receives first and second (not names)
+    so = [s for s in fl.calls("StageOp") if s.reachable and len(s.node.args) >= 3 and isinstance(s.node.args[0], ast.Name) and isinstance(s.node.args[1], ast.Name)]
+    if not so:
+        raise AnalysisError(f"{f.where}: StageOp(inputs, outputs, stage) construction not found")
+    in_l, out_l = so[0].node.args[0].id, so[0].node.args[1].id
     # argument order
     ro = f.nested("rewrite_operand")
     chk.analysed(ro.key)
@@ -285,17 +297,27 @@ def stage_shape(repo: Repo, chk: Check) -> None:
             if idx is None:
                 continue
             it = ast.unparse(idx).replace(" ", "")
-            if flag in facts and "len(input_buffers)-1" == it:
+            if flag in facts and f"len({in_l})-1" == it:
                 ok_in = True
-            if f"not {flag}" in facts and it in ("len(input_buffers)+len(output_buffers)-1", "len(output_buffers)+len(input_buffers)-1"):
+            if f"not {flag}" in facts and it in (f"len({in_l})+len({out_l})-1", f"len({out_l})+len({in_l})-1"):
                 ok_out = True
     chk.result(ok_in and ok_out, "C15.stage-shape", f"{ro.key}:arg-order", ro.where,
                "an input's block argument goes to the end of the inputs, an output's to the very end (inputs first, then outputs)",
                "stage block arguments are no longer inserted as `inputs first, then outputs`: StageOp(ins, outs) pairs operand k with block "
                "argument k, so ops inside a stage with several operands get the wrong buffers")
-    so = [s for s in fl.calls("StageOp") if s.reachable]
-    chk.result(any(len(s.node.args) >= 3 and ast.unparse(s.node.args[0]) == "input_buffers" and ast.unparse(s.node.args[1]) == "output_buffers" for s in so),
-               "C15.stage-shape", f"{f.key}:stage-operands", so[0].where() if so else f.where, "StageOp gets (inputs, outputs, stage number)")
+    # the two lists are filled by rewrite_operand: inputs under the flag, outputs under its negation
+    fills = {"in": False, "out": False}
+    for s in rfl.calls("append"):
+        tgt = ast.unparse(s.node.func.value)  # type: ignore[attr-defined]
+        for alt in s.state.alts:
+            facts = set(alt.facts)
+            if tgt == in_l and flag in facts:
+                fills["in"] = True
+            if tgt == out_l and f"not {flag}" in facts:
+                fills["out"] = True
+    chk.result(fills["in"] and fills["out"] and in_l != out_l,
+               "C15.stage-shape", f"{f.key}:stage-operands", so[0].where() if so else f.where, "StageOp gets (inputs, outputs, stage number): the first list collects the input buffers, the second the output buffers",
+               f"the lists handed to StageOp are not filled as inputs (under `{flag}`) / outputs (under `not {flag}`): {fills}")
     # ---- trip count
     chk.rule("C15.trip-count", "the prologue runs nb_stages-1 iterations unconditionally, so pipelining needs `trip count >= nb_stages - 1` (a guard relating the loop's ub to the number of stages)", floor=1)
     rel = [t for t in first.fact_texts if ".ub" in t and ("stages" in t or "nb_stages" in t)]
